@@ -132,6 +132,11 @@ def call_plan(kind, rng):
             ('rates', (), {'n_parts': int(rng.integers(1, 4))}),
             ('collective', (), {'max_dist': float(rng.choice([0.5, 1.0, 2.0, 3.5]))}),
             ('collective', (), {}),
+            # explicit falsy arguments are arguments, not omissions
+            ('collective', (), {'max_dist': [0, 0.0][int(rng.integers(2))]}),
+            ('collective', ([0, 0.0][int(rng.integers(2))],), {}),
+            ('to_graph', (), {'min_e_act': 0.0}),
+            ('to_graph', (), {'max_e_act': 0}),
         ]
     else:
         opts = [('site_pair_count_matrix', (), {}), ('site_pair_count_matrix_labels', (), {}), ('multiple_collective', (), {})]
